@@ -5,6 +5,7 @@ Property theorems only.
 import Helm.Model.Storage
 import Helm.Lemmas.Storage
 import Helm.Lemmas.StorageMem
+import Helm.Lemmas.StorageKey
 
 namespace Helm.Props.C10
 open Helm.Storage
@@ -127,6 +128,15 @@ are, step by step, those of a simple map from key to release. -/
 theorem memory_refines_map (ops : List Op) (hok : ∀ op ∈ ops, MemOpOK op) :
     MOutsRel (run memStep [] ops).2 (run specStep [] ops).2 :=
   (mem_run_refines ops [] [] MInv_empty (List.Perm.refl _) hok).2.2
+
+/-- The guard is met by every call storage.go makes for a release whose name contains no ".v":
+`makeKey name version` parses, and names the release (for every name and version, by the
+decimal digits of `toString version`). -/
+theorem storage_keys_meet_guard (r : Rel) (h : countDotV r.name.toList = 0) :
+    MemOpOK (.create (makeKey r.name r.version) r) ∧ MemOpOK (.update (makeKey r.name r.version) r) ∧
+    MemOpOK (.get (makeKey r.name r.version)) ∧ MemOpOK (.delete (makeKey r.name r.version)) := by
+  obtain ⟨h1, h2⟩ := makeKey_ok r.name r.version h
+  exact ⟨⟨h1, h2⟩, ⟨h1, h2⟩, h1, h1⟩
 
 /-- premises satisfiable: a key as storage.go makes it for an ordinary release name -/
 example : MemOpOK (.create (makeKey "my-app" 12) ⟨"my-app", 12, "deployed", [], ""⟩) ∧
